@@ -99,6 +99,8 @@ def engine_oracle(scen, regime, o, extra_obs):
         return ("c21:%s-double-free" % site, "a block was freed twice (or a foreign pointer freed): " + o[:160])
     if r["out"] == "FAULT":
         kind = "null-deref" if k == 0 and scen != "savemodel" else ("null-deref" if scen == "savemodel" else "use-after-free")
+        if regime == "longjmp":
+            kind = "fault-after-%s-alloc-failure" % ORD.get(k, str(k))
         key = "c21:%s-%s-%s-handler" % (site, kind, regime)
         what = "%s: after the %s allocation failed the process died (NULL dereference / use of a freed block)" % (scen, ORD.get(k, str(k)))
         if regime == "returning" and not RETURNING_HANDLER_IS_VIOLATION:
@@ -107,6 +109,8 @@ def engine_oracle(scen, regime, o, extra_obs):
         return (key, what)
     if r["live"] not in ("-", "?"):
         which = "vfs" if scen == "savemodel" and k == 1 else ORD.get(k, str(k))
+        if k is None:
+            return ("c21:%s-leak-without-any-fault" % site, "%s: blocks {%s} are still allocated after a run in which no allocation failed" % (scen, r["live"]))
         return ("c21:%s-leak-on-%s-alloc-%s" % (site, which, regime),
                 "%s with a %s handler: the %s mju_malloc call (%s bytes) fails and the blocks with call ids {%s} are never "
                 "freed (mju_malloc raises mju_error itself, the caller's clean-up branch is not reached)"
@@ -207,7 +211,8 @@ def run(ctx):
         base = parse_out(out[0]) if rc == 0 and out else None
         if not base or base["out"] != "returned" or base["live"] != "-" or "err=0" not in base["rest"]:
             ctx.oracle_failure("c21:mj_compile-fault-free-run-not-clean", "compile/delete without any fault is not clean: %s" % (out[:1],),
-                               {"model": name, "description": lines})
+                               {"model": name, "description": lines, "op": "run compile longjmp asis -", "impl_output": (out or [""])[0][:300],
+                                "replay": "write the description (+ a final line 'end') to a file F; echo '<op>' | c21_allocfail --model F"})
         else:
             ncall = sum(1 for e in base["ev"] if e[0] in "ax")
             ks = list(range(ncall + 1))
